@@ -821,6 +821,13 @@ func (d *badgerNodeDB) Prune(version uint64) error {
 		if innerErr != nil {
 			return innerErr
 		}
+		if errors.Is(err, api.ErrRootNotFound) {
+			// The root is still listed in the roots metadata but its root entry is gone. This
+			// happens when an earlier prune of this version was interrupted after its batch
+			// (which removes the root's nodes together with the root entry) was flushed but
+			// before the metadata was updated. There is nothing left to remove for this root.
+			continue
+		}
 		if err != nil {
 			return err
 		}
